@@ -8,7 +8,8 @@
         the new allocation, and the 25% growth strictly grows for every reachable capacity.
     Everything else of C01 (allocator, lifetimes, DTD/schema code) is exploration under ASan/UBSan, see checks/C01.py. *)
 From XV Require Import C04.Spec04 C04.Model04 C04.Contract04 C04.Proofs04a C04.Proofs04b C04.Proofs04c C04.Proofs04d
-                       C04.Proofs04e C04.Proofs04g C04.Inst04 C01.Model01.
+                       C04.Proofs04e C04.Proofs04g C04.Inst04 C01.Model01 C01.Model01g C01.Proofs01g C01.Proofs01x.
+From XV Require Import C05.Spec05 C05.Model05 C05.Proofs05c C05.Proofs05f.
 From Coq Require Import Lia ZArith ZifyBool ZifyN ZifyNat.
 Local Open Scope N_scope.
 Ltac Zify.zify_post_hook ::= Z.div_mod_to_equations.
@@ -151,4 +152,100 @@ Example T01_nonvacuous_ops :
 Proof. vm_compute. reflexivity. Qed.
 Example T01_nonvacuous_grow : buf_append1 1023 1023 = (1023, 1024, 2048) /\ stack_expand 32 = 40 /\ map_expand 0 = 16 /\ map_expand 16 = 20 /\
   dfa_add_state 79 80 = (79, 80, 120).
+Proof. vm_compute. auto. Qed.
+
+(* ================================================================================================================ *)
+(** Round 4.  (4) T01_grow_vv / rv / ht / sp / nip: the growable containers of util/ -- for EVERY sequence of operations
+    from every state satisfying the class invariant, every element index read or written is inside the (re-)allocated
+    array.  Tests, operators, factors and initial sizes are regenerated from the source on every run (Gen/GenC01Grow.v). *)
+Theorem T01_grow_vv : forall ops cur mx, cur <= mx -> fst (vv_run cur mx ops) = true.
+Proof. exact vv_run_safe. Qed.
+Print Assumptions T01_grow_vv.
+Theorem T01_grow_vv_ensure : forall cur mx len, cur <= mx -> cur + len <= vv_ensure cur mx len /\ mx <= vv_ensure cur mx len.
+Proof. exact vv_ensure_ok. Qed.
+Theorem T01_grow_rv : forall ops cur mx, cur <= mx -> fst (rv_run cur mx ops) = true.
+Proof. exact rv_run_safe. Qed.
+Print Assumptions T01_grow_rv.
+Theorem T01_grow_rv_ensure : forall cur mx len, cur <= mx -> cur + len <= rv_ensure cur mx len /\ mx <= rv_ensure cur mx len.
+Proof. exact rv_ensure_ok. Qed.
+(** RefHashTableOf: for any number of puts from any positive modulus the modulus stays positive and never shrinks, hence
+    every bucket index hash % fHashModulus is inside the bucket array allocated with fHashModulus entries *)
+Theorem T01_grow_ht : forall n cnt md h, 1 <= md -> Forall (fun m => md <= m /\ ht_bucket h m < m) (ht_run cnt md n).
+Proof.
+  intros n cnt md h H. eapply Forall_impl; [|exact (ht_run_ok n cnt md H)].
+  cbv beta. intros m Hm. split; [exact Hm|]. apply ht_bucket_ok. lia.
+Qed.
+Print Assumptions T01_grow_ht.
+(** XMLStringPool from its constructor state (fCurId 1, fMapCapacity 64): any number of new entries *)
+Theorem T01_grow_sp : forall n, fst (sp_run spInitId spInitCap n) = true.
+Proof. intros n. apply sp_run_safe; unfold spInitId, spInitCap; lia. Qed.
+Print Assumptions T01_grow_sp.
+(** NameIdPool: any number of puts, for every initial size other than 1 (0 selects the default 256) ... *)
+Theorem T01_grow_nip : forall n initSize, initSize <> 1 -> fst (nip_run 0 (nip_init initSize) n) = true.
+Proof.
+  intros n initSize H. unfold nip_init, nipDefault.
+  destruct (N.eqb_spec initSize 0); apply nip_run_safe; lia.
+Qed.
+Print Assumptions T01_grow_nip.
+(** ... which covers every NameIdPool the parser constructs (call sites regenerated from the source) ... *)
+Theorem T01_grow_nip_callsites : Forall (fun s => s <> 1) nipCallSizes.
+Proof. unfold nipCallSizes. repeat constructor; discriminate. Qed.
+(** ... but NOT initSize = 1: (XMLSize_t)(1 * 1.5) = 1 does not grow, the first put stores at index 1 of a 1-element array.
+    No parser path constructs such a pool (T01_grow_nip_callsites; the grammar deserialiser passes a stored size), so this
+    is an API-level observation outside the property's quantifier, not a finding of C01. *)
+Theorem T01_grow_nip_init1_refuted : exists n, fst (nip_run 0 (nip_init 1) n) = false.
+Proof. exists 1%nat. vm_compute. reflexivity. Qed.
+
+(** (5) T01_xcode_bounds: the intrinsic transcoders (models of C05, both directions) never produce more output elements
+    than the room the caller passed, produce one charSizes entry per output char, and never report more source elements
+    eaten than the source holds -- for every source, room and option.  [bytes src] / [Forall u16 src] only say that the
+    elements are XMLByte / XMLCh values.  Stated on C05's functional models (lists); an index-carrying model with
+    explicit src[i] reads is NOT built (see checks/meta/C01.json). *)
+Theorem T01_xcode_bounds_utf8_from : forall src maxChars out sizes eaten, bytes src ->
+  x8_from src maxChars = Ok (out, sizes, eaten) ->
+  (length out <= maxChars)%nat /\ length sizes = length out /\ (eaten <= length src)%nat.
+Proof.
+  intros src maxChars out sizes eaten Hb H.
+  destruct (x8_from_sound src maxChars out sizes eaten Hb H) as (cps & _ & _ & _ & _ & A & B & C). auto.
+Qed.
+Print Assumptions T01_xcode_bounds_utf8_from.
+Theorem T01_xcode_bounds_utf8_to : forall src maxBytes throw bs n, Forall u16 src ->
+  x8_to src maxBytes throw = Ok (bs, n) -> (length bs <= maxBytes)%nat /\ (n <= length src)%nat.
+Proof. exact x8_to_bounds. Qed.
+Print Assumptions T01_xcode_bounds_utf8_to.
+Theorem T01_xcode_bounds_ucs4_from : forall sw src maxChars out sizes eaten, bytes src ->
+  u4_from sw src maxChars = Ok (out, sizes, eaten) ->
+  (length out <= maxChars)%nat /\ length sizes = length out /\ (eaten <= length src)%nat.
+Proof. intros sw src maxChars out sizes eaten Hb H. exact (u4_loop_bounds _ _ _ _ _ _ _ Hb H). Qed.
+Print Assumptions T01_xcode_bounds_ucs4_from.
+Theorem T01_xcode_bounds_ucs4_to : forall sw src maxBytes bs e, u4_to sw src maxBytes = Ok (bs, e) ->
+  (length bs <= maxBytes)%nat /\ (e <= length src)%nat.
+Proof. exact u4_to_bounds. Qed.
+Print Assumptions T01_xcode_bounds_ucs4_to.
+Theorem T01_xcode_bounds_utf16 : forall sw src m,
+  ((length (u16_from sw src m) <= m)%nat /\ (2 * length (u16_from sw src m) <= length src)%nat) /\
+  ((length (u16_to sw src m) <= 2 * m)%nat /\ (length (u16_to sw src m) <= 2 * length src)%nat).
+Proof. intros sw src m. split; [apply u16_from_bounds|apply u16_to_bounds]. Qed.
+Print Assumptions T01_xcode_bounds_utf16.
+Theorem T01_xcode_bounds_table_from : forall from src m o e, tab_from from src m = (o, e) ->
+  (length o <= m)%nat /\ (e <= m)%nat /\ (e <= length src)%nat /\ (length o <= e)%nat.
+Proof. exact tab_from_bounds. Qed.
+Theorem T01_xcode_bounds_table_to : forall t sz src m throw o e, tab_to t sz src m throw = Ok (o, e) ->
+  (length o <= m)%nat /\ (e <= length src)%nat /\ length o = e.
+Proof. exact tab_to_bounds. Qed.
+Print Assumptions T01_xcode_bounds_table_to.
+Theorem T01_xcode_bounds_ascii_latin1 : forall src m,
+  (forall o, ascii_from src m = Ok o -> (length o <= m)%nat /\ (length o <= length src)%nat) /\
+  ((length (l1_from src m) <= m)%nat /\ (length (l1_from src m) <= length src)%nat).
+Proof. intros src m. split; [intros o; apply ascii_from_bounds|apply l1_from_bounds]. Qed.
+Print Assumptions T01_xcode_bounds_ascii_latin1.
+
+Example T01_nonvacuous_grow4 :
+  vv_run 0 0 [VAdd; VAdd; VIns 1; VIns 7; VEnsure 10; VRem 0; VClear]
+    = (true, [(1, 1, false); (2, 2, false); (3, 3, false); (3, 3, true); (3, 13, false); (2, 13, false); (0, 13, false)]) /\
+  rv_run 0 2 [VAdd; VAdd; VAdd; VAdd] = (true, [(1, 2, false); (2, 2, false); (3, 3, false); (4, 4, false)]) /\
+  ht_run 0 3 4 = [3; 3; 7; 7] /\ sp_run 63 64 2 = (true, (65, 96)) /\ nip_run 10 12 2 = (true, (12, 18)).
+Proof. vm_compute. auto. Qed.
+Example T01_nonvacuous_xcode : x8_to [0x41; 0xD800; 0xDF48; 0x20AC] 5 true = Ok ([0x41; 0xF0; 0x90; 0x8D; 0x88], 3%nat) /\
+  u4_to false [0x41; 0xD800; 0xDF48] 9 = Ok ([0x41; 0; 0; 0; 0x48; 0x03; 0x01; 0], 3%nat).
 Proof. vm_compute. auto. Qed.
